@@ -35,7 +35,12 @@ ASSUMPTIONS = ["alignment (reply belongs to its request, nothing left unread) is
 OK_QUERIES = ["QP", "QB", "QS", "QC", "QL", "QT", "QN", "QR", "qp", "Qs"]
 NOOK_QUERIES = ["A", "I", "MR", "PI,E,0", "PI,C,1", "QM", "QG", "V", "v", "qg", "pi,B,3", "Mr", " QG"]
 COMMANDS = ["SM,100,10,-10", "EM,1,1", "SP,1,100", "TP", "SL,7", "SC,4,12000", "PO,B,3,0", "PD,B,3,0", "HM,1000",
-            "XM,100,5,5", "LM,85899346,10,0,85899346,-10,0", "ST,Ada", "EM,0,0", "sp,0"]
+            "XM,100,5,5", "LM,85899346,10,0,85899346,-10,0", "ST,Ada", "EM,0,0", "sp,0",
+            "LM,-2147483647,-2147483648,-2147483647,-2147483647,-2147483648,-2147483647,3",          # 75 bytes
+            "LM,2147483647,2147483647,2147483647,2147483647,2147483647,2147483647",                  # 69 bytes
+            "SM,16777215,-8388608,-8388607" + ",0" * 20,                                             # 69 bytes
+            "ST," + "n" * 61,                                                                        # 64 bytes + CR
+            "ST," + "n" * 62, "ST," + "x" * 126, "ST," + "y" * 200]
 EXCS = ("SerialException", "SerialTimeoutException", "PortNotOpenError", "OSError")
 
 
@@ -261,7 +266,8 @@ def run_calls(ctx, classes, scen):
 def gen_request(rng):
     c = rng.random()
     if c < 0.35:
-        return "command", rng.choice(COMMANDS) + "\r", "request:command"
+        text = rng.choice(COMMANDS) + "\r"
+        return "command", text, "request:command" if len(text) <= 64 else "request:command longer than 64 bytes"
     if c < 0.7:
         return "query", rng.choice(OK_QUERIES) + "\r", "request:OK-terminated query"
     return "query", rng.choice(NOOK_QUERIES) + "\r", "request:no-OK query"
@@ -352,7 +358,7 @@ def run(ctx):
     ctx.extra["distinct_request_fault_position_triples"] = len(seen)
     ctx.extra["request_fault_position_examples"] = sorted(seen)[:10]
     for cls in ("delayed conforming history", "history with faults", "helpers under faults", "no port", "no text",
-                "request:command", "request:OK-terminated query", "request:no-OK query",
+                "request:command", "request:command longer than 64 bytes", "request:OK-terminated query", "request:no-OK query",
                 "delay before data/OK line:0", "delay before data/OK line:1", "delay before data/OK line:100",
                 "delay before data/OK line:2..99", "delay before trailing OK:0", "delay before trailing OK:100",
                 "delay before trailing OK:2..99", "fault:write raises", "fault:read raises", "fault:silent (timeout)",
